@@ -233,6 +233,14 @@ impl Builder {
             4 => -(self.rng.below(1u64 << 62) as i128),
             _ => self.now_ns + (self.rng.next_u64() as i64 >> self.rng.below(40)) as i128,
         };
+        // sub-second shapes: whole seconds, milliseconds, microseconds print with fewer digits
+        let t = match self.rng.below(6) {
+            0 => t - t.rem_euclid(1_000_000_000),
+            1 => t - t.rem_euclid(1_000_000),
+            2 => t - t.rem_euclid(1_000),
+            3 => t - t.rem_euclid(1_000_000_000) + 999_999_999,
+            _ => t,
+        };
         Ns(t.clamp(MIN, MAX))
     }
 
